@@ -6,6 +6,7 @@ import (
 	"sort"
 	"strconv"
 	"strings"
+	"unicode/utf8"
 
 	"github.com/sqlc-dev/doubleclick/token"
 )
@@ -232,7 +233,9 @@ var c18Listed = []string{"Int8", "Int16", "Int32", "Int64", "Int128", "Int256", 
 var c18Unlisted = []string{"IntervalDay", "IntervalSecond", "IntervalMonth", "LineString", "MultiLineString", "VARCHAR", "TEXT", "BIGINT",
 	"TINYINT", "REAL", "BLOB", "INET4", "MyType"}
 
-var c18ElemNames = []string{"a", "b", "c", "x", "y", "id", "name", "value", "key", "k1", "_f", "col_2", "ts", "n", "s", "status", "type", "index", "A1"}
+var c18ElemNames = []string{"a", "b", "c", "x", "y", "id", "name", "value", "key", "k1", "_f", "col_2", "ts", "n", "s", "status", "type", "index", "A1",
+	"comment", "default", "alias", "ttl", "materialized", "codec", "settings", "primary", "order", "format", "select", "from", "as", "to", "in", "is", "not", "null"}
+
 // element names that are not plain ASCII words: written in backticks, shown in backticks (the Lean model and
 // spec are only consulted for plain names; these are compared with the Go oracle alone)
 var c18SpecialElemNames = []string{"имя", "a$b", "a b", "naïve", "x-y", "中", "a.b", "pct%"}
@@ -268,9 +271,9 @@ func (t *Ty) hasSpecialName() bool {
 var c18TypeLikeElemNames = []string{"date", "time", "string", "uuid", "point", "json", "bool", "Date", "int", "map", "tuple"}
 
 var c18TimeZones = []string{"UTC", "Europe/Moscow", "America/New_York", "Asia/Istanbul", "Etc/GMT+3", "Europe/Amsterdam", "", "Asia/Kolkata", "UCT", "W-SU",
-	"UTC", "Europe/Moscow", "a'b", "'", "\\", "a\\b", "tab\tx", "it's", "\\'", "nl\nx", "\x00", "Ünï"}
+	"UTC", "Europe/Moscow", "a'b", "'", "\\", "a\\b", "tab\tx", "it's", "\\'", "nl\nx", "\x00", "Ünï", "\xff", "a\x80z"}
 var c18EnumNames = []string{"a", "b", "c", "hello", "hello world", "", "Ünï", "привет", "a=b", "x,y", "(", ")", "--", "/*", "*/", "0", "NULL", " ",
-	"back\\slash", "\\", "tab\tx", "nl\nx", "cr\r", "nul\x00", "bs\b", "ff\f", "\\n", "a\"b", "`", "=", " = 1", "a'b", "'", "it's", "''", "x\\'y"}
+	"back\\slash", "\\", "tab\tx", "nl\nx", "cr\r", "nul\x00", "bs\b", "ff\f", "\\n", "a\"b", "`", "=", " = 1", "a'b", "'", "it's", "''", "x\\'y", "\xff", "\xc3", "ab\xe2\x82", "\x80\x81"}
 
 // the generator's copy of isDataTypeName's list. It only steers generation (which names may stand where); if /repo's list
 // changes, the `c18ty` correspondence below reports it (the Lean side's WfTy uses the regenerated DC.Gen.TypeNames).
@@ -566,7 +569,12 @@ func c18SpellString(r *Rng, v string) string {
 		case '\f':
 			sb.WriteString(`\f`)
 		default:
-			sb.WriteByte(b)
+			if b >= 0x80 && !utf8.ValidString(v) {
+				// a raw byte that is not valid UTF-8 would be replaced by U+FFFD by the lexer: spell it as an escape
+				fmt.Fprintf(&sb, "\\x%02X", b)
+			} else {
+				sb.WriteByte(b)
+			}
 		}
 	}
 	sb.WriteByte('\'')
